@@ -499,7 +499,7 @@ nextRule:
 				continue
 			}
 
-			payloadParts := t.encodedECParts[ruleIdx]
+			payloadParts := t.encodedECParts[ecRuleIdx]
 			fin, err := handleECRule(ruleIdx, ecRuleIdx, payloadParts, ecRules[ecRuleIdx])
 			if err != nil {
 				return err
